@@ -108,6 +108,15 @@ def run_generic(pid, profile, tier, seed, domains=None, extra_domains=(), n_quic
             for h in hs:
                 nontriv.add(json.dumps(h["steps"], sort_keys=True))
         ck.cov["directed_family_2"] = {"name": "dup_disjunct_history", "histories": nf2, "domains": len(doms)}
+        # third directed family: a widening result mutated in place and widened again (wrappers caching the un-normalised result)
+        nf3 = 150 if tier == "quick" else 1200
+        wdoms = [d for d in doms if d.startswith("ref_") or ("ref_" + d) in doms]
+        for off in range(0, nf3, 500):
+            hs = [hist.widen_mutate_widen_history(ck.rng, 760000 + off + i, params=ck.rng.choice(PARAMS)) for i in range(min(500, nf3 - off))]
+            fails, knowns, _ = domops.run_batch(ck, "wmw%d" % off, hs, wdoms, box=box, univ=univ, timeout=3000)
+            allf += fails
+            allk += knowns
+        ck.cov["directed_family_3"] = {"name": "widen_mutate_widen_history", "histories": nf3, "domains": wdoms}
     if pid == "C04":    # directed family: bounds plus weak relational constraints against stronger relational constraints
         rdoms2 = [d for d in doms if d in ("split_dbm", "sparse_dbm", "split_oct", "sdbm_ss", "sdbm_pt", "sdbm_ht", "sdbm_safe", "sdbm_big",
                                           "spdbm_safe", "soct_safe", "term_sdbm", "as_sdbm", "pack_sdbm", "bool_dbm", "pow_sdbm", "ref_split_dbm",
